@@ -11,6 +11,8 @@ Structural clauses decided:
   T7  no raw allocator call outside mem.c except through the allocation macros (frozen exceptions with reasons)
   T8  the record's file name is copied with a bound equal to the size of the field it is copied into
   T9  removing a record moves exactly the records behind its slot down by one (GHOSTPOS over count and slot offset)
+  T11 the lookup answers from the table it is given: it reads no other mutable state, or every record it returns was compared
+      with the pointer asked for on the way to the return (a remembered slot must be re-validated)
 """
 import json
 import os
@@ -476,6 +478,109 @@ def check_not_found(chk, prog, fn):
            proof="the not-found path performs no store, move or reallocation")
 
 
+def check_lookup_answer(chk, prog, fn):
+    """T11: memrec_find_var returns the record of the pointer asked for: a function that reads nothing but its arguments (and
+    the diagnostic level) answers from the table alone; one that also consults file-scope state (a remembered slot) must have
+    compared the returned record's pointer with the argument on every path to that return."""
+    quiet = ("libast_debug_level", "stderr", "stdout")
+    outside = []
+    for n in walk(fn.body):
+        if n.get("k") == "ref" and n.get("rk") in ("global", "slocal") and n.get("n") not in quiet and "const" not in (n.get("t") or "").rsplit("*", 1)[-1]:
+            outside.append(n)
+    pptr = [p_["d"] for p_ in fn.params if p_.get("tp")]
+
+    def matched_record(cond, truth):
+        """apath of X when the edge says X->ptr == <pointer parameter>"""
+        out = set()
+        c = X.strip(cond)
+        if c is None:
+            return out
+        if c.get("k") == "un" and c.get("op") == "!":
+            return matched_record(c["ch"][0], not truth)
+        if c.get("k") == "bin" and c.get("op") in ("&&", "||"):
+            a, b = matched_record(c["ch"][0], truth), matched_record(c["ch"][1], truth)
+            if (c["op"] == "&&") == truth:
+                return a | b
+            return a & b
+        if c.get("k") == "bin" and c.get("op") in ("==", "!=") and ((c["op"] == "==") == truth):
+            for x, y in ((c["ch"][0], c["ch"][1]), (c["ch"][1], c["ch"][0])):
+                sx, sy = X.strip(x), X.strip(y)
+                if sx is not None and sx.get("k") == "member" and sy is not None and sy.get("k") == "ref" and sy.get("d") in pptr:
+                    b = X.strip(sx["ch"][0])
+                    if sx.get("arrow"):
+                        pa = X.apath(b)
+                    else:
+                        pa = X.apath(b)
+                        pa = ("&" + pa) if pa is not None else None
+                    if pa is not None:
+                        out.add(("m", pa))
+        return out
+
+    def record_path(v):
+        """the record an expression points to: p, &A[i], A + i"""
+        v = X.strip(v)
+        if v is None:
+            return None
+        pa = X.apath(v)
+        if pa is not None:
+            return pa
+        if v.get("k") == "un" and v.get("op") == "&":
+            q = X.apath(v["ch"][0])
+            return ("&" + q) if q is not None else None
+        if v.get("k") == "bin" and v.get("op") == "+":
+            a, b = X.strip(v["ch"][0]), X.strip(v["ch"][1])
+            if not X.is_pointer(a):
+                a, b = b, a
+            qa, qb = X.apath(a), X.apath(b)
+            if qa is not None and (qb is not None or X.const_val(b) is not None):
+                return "&%s[%s]" % (qa, qb if X.const_val(b) is None else X.const_val(b))
+        return None
+
+    def roots(pa):
+        return set(int(m_) for m_ in re.findall(r"d(\d+)", pa))
+
+    def transfer(st, n, blk):
+        tgt = None
+        if n.get("k") == "assign" or (n.get("k") == "un" and n.get("op") in ("++", "--")):
+            tgt = X.strip(n["ch"][0])
+        if tgt is not None:
+            if tgt.get("k") == "ref":
+                src = record_path(n["ch"][1]) if (n.get("k") == "assign" and n.get("op") == "=") else None
+                carry = src is not None and ("m", src) in st and tgt.get("d") not in roots(src)
+                st = frozenset(f for f in st if tgt.get("d") not in roots(f[1]))
+                if carry:
+                    st = st | {("m", "d%d" % tgt["d"])}
+            else:
+                st = frozenset()          # a store through memory: the records themselves may have changed
+        elif n.get("k") == "call" and (X.callee_name(n) or "") not in ("fprintf", "fflush", "libast_dprintf", "time", "libast_print_warning", "libast_print_error"):
+            st = frozenset()
+        return st
+
+    def refine(st, cond, truth, blk=None):
+        if isinstance(truth, tuple):
+            return st
+        return st | matched_record(cond, truth)
+    rets = []
+
+    def visit(st, n, blk):
+        if n.get("k") == "return" and n.get("val") is not None:
+            v = X.strip(n["val"])
+            if v is None or X.is_null_const(v) or X.const_val(v) == 0:
+                return
+            pa = record_path(v)
+            rets.append((n, pa is not None and ("m", pa) in st))
+    cfg = nullness.prepared_cfg(fn, {"libast_fatal_error"})
+    flow.forward(cfg, frozenset(), transfer, refine=refine, visit=visit)
+    chk.count("lookup_returns", len(rets), floor=1)
+    unjust = [n for n, ok in rets if not ok]
+    bad = bool(outside) and bool(unjust)
+    chk.ob("T11", fn.name, "answers-from-the-table", not bad, loc=fn.loc(unjust[0]) if bad else fn.loc(fn.body),
+           detail="%s consults state outside the table it was given (%s) and returns a record (%s) without having compared that record's pointer "
+                  "with the one asked for: after the table is edited the remembered answer names another allocation" %
+                  (fn.name, ", ".join(sorted(set(n.get("n") or "?" for n in outside))), X.render(unjust[0])[:40] if unjust else ""),
+           proof=("reads only its arguments" if not outside else "every returned record was compared with the pointer asked for on the way to the return"))
+
+
 def probe_source():
     L = ['#ifdef HAVE_CONFIG_H', '# include <config.h>', '#endif', '#include <libast_internal.h>',
          'const int la_debug_value = DEBUG;', 'const int la_mem_level = DEBUG_MEM;',
@@ -494,6 +599,7 @@ def run(tier="quick", mktable=False):
                             "DEBUG matrix, raw allocator who-may-call, file-name bound")
     for rid, txt in (("T1", "wrapper mirrors its allocation exactly when the runtime level is at the memory level"),
                      ("T2", "every table edit is dominated by the runtime gate"), ("T4", "not-found leaves the table unchanged"),
+                     ("T11", "the lookup returns a record only of the pointer asked for (no unvalidated remembered slot)"),
                      ("T5", "REALLOC macro and spifmem_realloc agree on (NULL?,0?)"), ("T6", "allocation macros map to wrappers iff DEBUG >= DEBUG_MEM"),
                      ("T7", "no raw allocator call outside mem.c except via the macros"), ("T9", "removing a record closes the gap with exactly the records behind it"), ("T8", "file name copied with the bound of its field")):
         chk.rule(rid, txt)
@@ -613,6 +719,9 @@ def run(tier="quick", mktable=False):
     # T4
     for nm in ("memrec_rem_var", "memrec_chg_var"):
         check_not_found(chk, prog, prog.need(nm))
+    # T11: the lookup answers from the table it was given.  Either it reads no other mutable state at all, or (a lookup cache) every
+    # record it returns has just been compared with the pointer asked for.
+    check_lookup_answer(chk, prog, prog.need("memrec_find_var"))
     # T5: decision tables
     tr = realloc_table(prog.need("spifmem_realloc"), mem_level, True)
     # untracked macro: probe compiled with the tree's default DEBUG if below mem_level, else DEBUG=mem_level-1
